@@ -217,14 +217,14 @@ Qed.
 
 (* finished futures never change; ids are never recycled *)
 Definition ext (e e' : exec) : Prop :=
-  nfut e <= nfut e' /\ forall id, finished (futs e id) = true -> futs e' id = futs e id.
+  nfut e <= nfut e' /\ forall id, id < nfut e -> finished (futs e id) = true -> futs e' id = futs e id.
 
 Lemma ext_refl : forall e, ext e e.
 Proof. intros. split; [lia | reflexivity]. Qed.
 
 Lemma ext_trans : forall a b c, ext a b -> ext b c -> ext a c.
 Proof.
-  intros a b c [H1 H2] [H3 H4]. split; [lia|]. intros id Hf. rewrite H4; [apply H2; assumption|].
+  intros a b c [H1 H2] [H3 H4]. split; [lia|]. intros id Hlt Hf. rewrite H4; [apply H2; assumption|lia|].
   rewrite H2; assumption.
 Qed.
 
@@ -263,7 +263,7 @@ Proof.
       - rewrite Ep. constructor.
       - rewrite Em. intros Hex. contradiction. }
     split.
-    { split; [lia|]. rewrite Ef. intros id Hf. apply Hout. rewrite <- in_rev. intro Hi.
+    { split; [lia|]. rewrite Ef. intros id _ Hf. apply Hout. rewrite <- in_rev. intro Hi.
       destruct (H1 id Hi). congruence. }
     repeat split; try assumption; intros; first [assumption | discriminate].
   - match goal with |- context [wf ?X] => set (e' := X) end.
@@ -300,7 +300,7 @@ Proof.
       * rewrite upd_other in Hu by assumption. split; [apply H2; assumption | assumption].
     + apply popkey_NoDup. assumption.
     + intros Hex. destruct (H5 Hex) as [A B]. rewrite B in Hin. destruct Hin.
-  - split; [lia|]. rewrite Ef. intros i Hf. apply upd_other. intro; subst. congruence.
+  - split; [lia|]. rewrite Ef. intros i _ Hf. apply upd_other. intro; subst. congruence.
 Qed.
 
 Lemma process_result_item_spec : forall m e, wf e ->
